@@ -577,6 +577,32 @@ fn save_error_case(old: Option<&Content>, new: &Content, fmt: Fmt, dir: &Path) -
     if bad.is_empty() { Ok(()) } else { Err(format!("save = {}; {}", match &r { Ok(()) => "Ok".to_string(), Err(e) => e.clone() }, bad.join(" | "))) }
 }
 
+// ---------------------------------------------------------------- save over a stale temp file
+
+/// An earlier save was interrupted before its rename and left `<path>.tmp` behind (here: `stale` bytes of
+/// junk, longer than any snapshot of `new`).  A later successful save must still publish exactly the new image.
+fn stale_temp_case(new: &Content, fmt: Fmt, stale: usize, dir: &Path) -> Result<(), String> {
+    let s = TensorStore::new();
+    populate(s.router(), Some(&s), new).map_err(|e| format!("populate: {e}"))?;
+    // reference: the same store saved to a path with no leftover, and loaded
+    let clean = dir.join("clean.snap");
+    let _ = std::fs::remove_file(&clean);
+    let _ = std::fs::remove_file(clean.with_extension("tmp"));
+    save_file(&s, fmt, &clean).map_err(|e| format!("harness: clean save: {e}"))?;
+    let want = loaded_view(fmt, &clean, new).map_err(|e| format!("harness: clean save does not load: {e}"))?;
+    // the same save over a leftover temp file
+    let path = dir.join("stale.snap");
+    let tmp = path.with_extension("tmp");
+    let _ = std::fs::remove_file(&path);
+    std::fs::write(&tmp, vec![0xA5u8; stale]).map_err(|e| format!("harness: writing the leftover temp file: {e}"))?;
+    let r = save_file(&s, fmt, &path);
+    let got = loaded_view(fmt, &path, new);
+    let _ = std::fs::remove_file(&tmp);
+    r.map_err(|e| format!("save over a leftover temp file = Err({e})"))?;
+    let got = got.map_err(|e| format!("after a successful save over a leftover temp file of {stale} bytes the snapshot does not load: {e}"))?;
+    verdict(diff(&want, &got, false))
+}
+
 // ---------------------------------------------------------------- snapshot, mutate, snapshot again
 
 fn row3() -> Vec<ColumnValue> {
@@ -842,6 +868,17 @@ pub fn run(tier: Tier, seed: u64) -> Report {
     }
     rep.sample(json!({"kind": "save_error", "format": "file_zstd", "old": err_pairs[0].0.as_ref().map(Content::to_json), "new": err_pairs[0].1.to_json()}));
 
+    // a successful save over the leftover temp file of an interrupted earlier save
+    for (_, new) in &err_pairs {
+        for fmt in FILE_FMTS {
+            for stale in [1usize, 4096, 1 << 20] {
+                let r = stale_temp_case(new, fmt, stale, &dir);
+                rep.eval(true);
+                rep.check(OB_SAVE_ERR, r.is_ok(), &|| json!({"kind": "stale_temp", "format": fmt.name(), "new": new.to_json(), "stale": stale}), &|| r.clone().err().unwrap_or_default());
+            }
+        }
+    }
+
     // snapshot, overwrite in place, snapshot again
     for fmt in ALL_FMTS {
         for (first, del, second) in resnapshot_contents(fmt, tier) {
@@ -904,6 +941,7 @@ pub fn replay(ob: &str, case: &Value) -> Result<String, String> {
             let old = if case["old"].is_null() { None } else { Some(Content::parse(&case["old"])) };
             save_error_case(old.as_ref(), &Content::parse(&case["new"]), Fmt::parse(case["format"].as_str().unwrap_or("")), &dir)
         },
+        "stale_temp" => stale_temp_case(&Content::parse(&case["new"]), Fmt::parse(case["format"].as_str().unwrap_or("")), case["stale"].as_u64().unwrap_or(4096) as usize, &dir),
         "resnapshot" => {
             let del: Vec<String> = case["delete"].as_array().map(|a| a.iter().filter_map(|x| x.as_str().map(str::to_string)).collect()).unwrap_or_default();
             resnapshot_case(&Content::parse(&case["first"]), &del, &Content::parse(&case["second"]), Fmt::parse(case["format"].as_str().unwrap_or("")), &dir)
